@@ -1,5 +1,5 @@
 import Driver.Util
-import PytezosModel.Michelson.Tickets
+import PytezosModel.Michelson.TicketsTyping
 open Driver Impl.Tickets
 
 /-! line protocol of C20.
@@ -13,7 +13,8 @@ instrs  `TICKET` `READ_TICKET` `SPLIT_TICKET` `JOIN_TICKETS` `PAIR` `UNPAIR` `CA
         `PUSH <ty> <val>` `EMPTY_MAP <k> <v>` `EMPTY_BIG_MAP <k> <v>` `GET` `GET_AND_UPDATE` `UPDATE` `{ … }`
 line    `seg <self-hex> { … } seg <self-hex> { … } …`   (segments run one after the other on the same stack, each with its
         own self address)
-answer  `ok <typedStores 0|1> <k> <val>…` (final stack, top first) | `err <segment>` | `unmodelled` | `fuel` -/
+answer  `ok <typedStores 0|1> <static 0|1> <k> <val>…` (final stack, top first; `static` = every segment passed the type
+        checker `wellTyped` against the stack it started on) | `err <segment>` | `unmodelled` | `fuel` -/
 
 partial def readTy : List String → Option (Ty × List String)
   | "nat" :: r => some (.nat, r)
@@ -190,11 +191,12 @@ end
 
 def fuelOf (prog : List String) : Nat := 50 * prog.length + 1000
 
-partial def runSegs (fuel : Nat) : Nat → List (String × List Instr) → State → String
-  | _, [], s => joinWith " " (["ok", (if s.typedStores then "1" else "0"), toString s.items.length] ++ showVals s.items)
+partial def runSegs (fuel : Nat) (static : Bool) : Nat → List (String × List Instr) → State → String
+  | _, [], s =>
+    joinWith " " (["ok", (if s.typedStores then "1" else "0"), (if static then "1" else "0"), toString s.items.length] ++ showVals s.items)
   | j, (self, prog) :: rest, s =>
     match run cfg fuel prog { s with self := self, prot := 0 } with
-    | .ok s' => runSegs fuel (j + 1) rest s'
+    | .ok s' => runSegs fuel (static && wellTyped cfg prog s.items) (j + 1) rest s'
     | .error .fail => "err " ++ toString j
     | .error .unmodelled => "unmodelled"
     | .error .fuel => "fuel"
@@ -202,7 +204,7 @@ partial def runSegs (fuel : Nat) : Nat → List (String × List Instr) → State
 def handle (line : String) : String :=
   let ts := words line
   match readSegs ts with
-  | some segs => runSegs (fuelOf ts) 0 segs { items := [], prot := 0, self := "" }
+  | some segs => runSegs (fuelOf ts) true 0 segs { items := [], prot := 0, self := "" }
   | none => "bad-op"
 
 def main : IO Unit := mainWith handle
